@@ -232,7 +232,8 @@ impl<S: Read + Write> Client<S> {
         self.user_id = Some(read_attach_user_confirm(&mut try_let!(tpkt::Payload::Raw, self.x224.read()?)?)?);
 
         // Add static channel
-        self.channel_ids.insert("global".to_string(), 1003);
+        // The I/O channel id is assigned by the server in its network data
+        self.channel_ids.insert("global".to_string(), self.server_data.as_ref().unwrap().global_channel_id);
         self.channel_ids.insert("user".to_string(), self.user_id.unwrap());
 
         // Create list of requested channels
